@@ -16,19 +16,23 @@ pub struct Case {
     pub first_only: bool,
     pub with_paths: bool,
     pub involving: u32,
+    /// the implementation sees every weight (and the cutoff, when weighted) divided by this power of two; the distances it
+    /// reports are multiplied back (all exact in f64), so that the model and the checker keep working on integers
+    pub wdiv: u64,
 }
 
 impl Case {
     pub fn request(&self) -> String {
         format!(
-            "sp {} {} {} {} {} {} {}",
+            "sp {} {} {} {} {} {} {} {}",
             self.g.tokens(),
             self.weighted as u8,
             self.target.map(|x| x as i64).unwrap_or(-1),
             self.cutoff2.unwrap_or(NAN_TOKEN),
             self.first_only as u8,
             self.with_paths as u8,
-            self.involving
+            self.involving,
+            self.wdiv
         )
     }
     pub fn parse(t: &mut Toks) -> Case {
@@ -39,7 +43,8 @@ impl Case {
         let first_only = t.next() != 0;
         let with_paths = t.next() != 0;
         let involving = t.next() as u32;
-        Case { g, weighted, target: if tg < 0 { None } else { Some(tg as u32) }, cutoff2: if c == NAN_TOKEN { None } else { Some(c) }, first_only, with_paths, involving }
+        let wdiv = t.next() as u64;
+        Case { wdiv, g, weighted, target: if tg < 0 { None } else { Some(tg as u32) }, cutoff2: if c == NAN_TOKEN { None } else { Some(c) }, first_only, with_paths, involving }
     }
 }
 
@@ -92,23 +97,25 @@ fn tok_map(m: &Result<Vec<(u32, Row)>, Error>) -> String {
 }
 
 pub fn observe_inner(c: &Case) -> String {
-    let g = match c.g.build() {
+    let g = match c.g.build_scaled(c.wdiv.max(1)) {
         Ok(g) => g,
         Err(e) => return format!("i.build=E{}", err_code(&e.kind)),
     };
-    let cutoff = c.cutoff2.map(|x| x as f64 / 2.0);
+    let scale = if c.weighted { c.wdiv.max(1) as f64 } else { 1.0 };
+    let cutoff = c.cutoff2.map(|x| x as f64 / 2.0 / scale);
+    let unscale = |mut r: Row| -> Row { for i in r.values_mut() { i.distance *= scale; } r };
     let names: Vec<u32> = g.get_all_node_names().into_iter().copied().collect();
     // one single_source call per node
     let mut ss: Result<Vec<(u32, Row)>, Error> = Ok(vec![]);
     for s in &names {
         match dijkstra::single_source(&g, c.weighted, *s, c.target, cutoff, c.first_only, c.with_paths) {
-            Ok(r) => { if let Ok(v) = ss.as_mut() { v.push((*s, r)); } }
+            Ok(r) => { if let Ok(v) = ss.as_mut() { v.push((*s, unscale(r))); } }
             Err(e) => { ss = Err(e); break; }
         }
     }
-    let ms = dijkstra::multi_source(&g, c.weighted, names.clone(), c.target, cutoff, c.first_only, c.with_paths).map(|m| m.into_iter().collect::<Vec<_>>());
-    let ap = dijkstra::all_pairs(&g, c.weighted, c.target, cutoff, c.first_only, c.with_paths).map(|m| m.into_iter().collect::<Vec<_>>());
-    let inv = dijkstra::get_all_shortest_paths_involving(&g, c.involving, c.weighted);
+    let ms = dijkstra::multi_source(&g, c.weighted, names.clone(), c.target, cutoff, c.first_only, c.with_paths).map(|m| m.into_iter().map(|(k, r)| (k, unscale(r))).collect::<Vec<_>>());
+    let ap = dijkstra::all_pairs(&g, c.weighted, c.target, cutoff, c.first_only, c.with_paths).map(|m| m.into_iter().map(|(k, r)| (k, unscale(r))).collect::<Vec<_>>());
+    let inv: Vec<ShortestPathInfo<u32>> = dijkstra::get_all_shortest_paths_involving(&g, c.involving, c.weighted).into_iter().map(|mut i| { i.distance *= scale; i }).collect();
     let mut inv_s: Vec<String> = inv.iter().map(p_info).collect();
     inv_s.sort();
     let mut tok = format!("{} {} {} {}", tok_map(&ss), tok_map(&ms), tok_map(&ap), inv.len());
@@ -157,7 +164,7 @@ pub fn gen_case(rng: &mut Rng, profile: &str, size: usize) -> Case {
     let cutoff2 = if big { if rng.chance(55) { Some(rng.range(0, 6 * g.nodes.len() as i64)) } else { None } }
                   else if rng.chance(40) { Some(rng.range(0, 12)) } else { None };
     let involving = if g.nodes.is_empty() { absent } else { *rng.pick(&g.nodes) };
-    Case { g, weighted, target, cutoff2, first_only: rng.chance(35), with_paths: rng.chance(if big { 45 } else { 70 }), involving }
+    Case { wdiv: *rng.pick(&[1u64, 1, 1, 2, 4, 1 << 60, 1 << 60]), g, weighted, target, cutoff2, first_only: rng.chance(35), with_paths: rng.chance(if big { 45 } else { 70 }), involving }
 }
 
 pub fn candidates(c: &Case) -> Vec<String> {
